@@ -633,3 +633,6 @@ func (it *MapIt[K, V]) Next() bool {
 	}
 	return false
 }
+
+// ElidedStack replaces runtime/debug.Stack inside goatcore's error constructor (see instr).
+func ElidedStack() []byte { return []byte("(stack trace elided by the verification build)\n") }
